@@ -186,7 +186,11 @@ fn env_pair(out: &mut Out, stats: &mut Stats, rng: &mut Rng) {
                 }
                 a.tick();
                 b.tick();
-                if key(a.value()) != key(b.value()) || a.verif_state() != b.verif_state() {
+                #[cfg(feature = "core-hooks")]
+                let same_phase = a.verif_state() == b.verif_state();
+                #[cfg(not(feature = "core-hooks"))]
+                let same_phase = true;
+                if key(a.value()) != key(b.value()) || !same_phase {
                     neq += 1;
                 }
             }
